@@ -79,10 +79,18 @@ def project(container, bs4):
                 ns = getattr(k, 'namespace', None)
                 local = getattr(k, 'name', None)
                 lst = isinstance(v, (list, tuple))
+                odd = False
                 if lst:
-                    v = ' '.join(v)
-                at.append({'k': cps(str(k)), 'ns': cps(ns) if ns else [], 'local': cps(local if local else str(k)),
-                           'v': cps(v), 'list': lst})
+                    odd = not all(isinstance(x, str) for x in v)
+                    v = ' '.join(str(x) for x in v)
+                elif not isinstance(v, str):
+                    odd = True
+                    v = '' if v is None else str(v)
+                rec = {'k': cps(str(k)), 'ns': cps(ns) if ns else [], 'local': cps(local if local else str(k)),
+                       'v': cps(v), 'list': lst}
+                if odd:
+                    rec['oddproj'] = True
+                at.append(rec)
             d['attrs'].append(at)
             d['text'].append([])
             nodes.append(node)
